@@ -266,7 +266,16 @@ def run_part(chk, tier, builds=None):
                 # a hang costs the whole timeout: two hung plans are evidence enough
                 summary.setdefault("plans_not_run_after_hangs", []).append([bname, p["idx"]])
                 continue
-            raw = run_probe(chk, bindir, p, bname, timeout=45 if tier == "quick" else 180)
+            limit = 45 if tier == "quick" else 180
+            raw = run_probe(chk, bindir, p, bname, timeout=limit)
+            if raw["killed"]:
+                # a wall-clock limit tripped: re-confirm alone, twice, with at least 5 times the limit
+                # (more under load); only a non-return seen both times counts
+                factor = min(10.0, 5.0 * max(1.0, os.getloadavg()[0] / float(os.cpu_count() or 1)))
+                again = [run_probe(chk, bindir, p, bname + "-reconfirm%d" % i, timeout=limit * factor) for i in range(2)]
+                if not all(a["killed"] for a in again):
+                    summary.setdefault("wall_clock_trips_not_reproduced", []).append({"plan": p["idx"], "build": bname, "limit_factor": round(factor, 1)})
+                    raw = next(a for a in again if not a["killed"])
             hangs += 1 if raw["killed"] else 0
             tr, info = to_trace(p, raw, len(metas))
             metas.append((p, raw, info))
